@@ -215,7 +215,7 @@ func Shrink(rec []simrt.Decision, class string, budget time.Duration, run func([
 			return false
 		}
 		cl, actual := run(cand)
-		if cl == class {
+		if cl == class && len(actual) <= len(best) {
 			best = actual
 			return true
 		}
